@@ -2,6 +2,7 @@ package auth
 
 import (
 	"crypto/rand"
+	"crypto/subtle"
 	"encoding/hex"
 	"errors"
 	"fmt"
@@ -97,7 +98,7 @@ func (cr *CryptoSignAuthenticator) Authenticate(sid wamp.ID, details wamp.Dict, 
 			msg.MessageType(), client)
 	}
 
-	verify, err := cr.verifySignature(authRsp.Signature, key)
+	verify, err := cr.verifySignature(authRsp.Signature, key, challenge)
 	if err != nil {
 		return nil, err
 	}
@@ -119,7 +120,9 @@ func (cr *CryptoSignAuthenticator) Authenticate(sid wamp.ID, details wamp.Dict, 
 	return welcome, nil
 }
 
-func (cr *CryptoSignAuthenticator) verifySignature(signature string, publicKey []byte) (bool, error) {
+// verifySignature checks that signature is the challenge issued in this
+// handshake, signed with the private key belonging to publicKey.
+func (cr *CryptoSignAuthenticator) verifySignature(signature string, publicKey []byte, challenge []byte) (bool, error) {
 	signatureBytes, err := hex.DecodeString(signature)
 	if err != nil {
 		fmt.Println(err)
@@ -130,12 +133,15 @@ func (cr *CryptoSignAuthenticator) verifySignature(signature string, publicKey [
 		return false, fmt.Errorf("signed message has invalid length (was %v, but should have been 96", len(signatureBytes))
 	}
 
-	signedOut := make([]byte, 32)
 	var pubkey [32]byte
 	copy(pubkey[:], publicKey)
-	_, verify := sign.Open(signedOut, signatureBytes, &pubkey)
-
-	return verify, nil
+	opened, verify := sign.Open(nil, signatureBytes, &pubkey)
+	if !verify {
+		return false, nil
+	}
+	// A validly signed message that is not this handshake's challenge is a
+	// response captured from another handshake.
+	return subtle.ConstantTimeCompare(opened, challenge) == 1, nil
 }
 
 // TODO: Finish implementing extractChannelBinding.
